@@ -116,12 +116,12 @@ type C19Case struct {
 	Rules    []C19Rule `json:"rules"`
 	Hit      bool      `json:"hit_header"`
 	// Warmup: the same request is served (and logged) once before on the same WAF
-	Warmup     bool   `json:"warmup,omitempty"`
+	Warmup bool `json:"warmup,omitempty"`
 	// RespPartial: the response body is larger than a small SecResponseBodyLimit with ProcessPartial
-	RespPartial bool `json:"resp_partial,omitempty"`
-	RespStatus int    `json:"resp_status"`
-	HdrVal     string `json:"header_value"`
-	Body       string `json:"body"`
+	RespPartial bool   `json:"resp_partial,omitempty"`
+	RespStatus  int    `json:"resp_status"`
+	HdrVal      string `json:"header_value"`
+	Body        string `json:"body"`
 }
 
 var c19Hostile = []string{"plain", "line1\nline2", "quote\"s and 'single'", "\xff\xfe invalid utf8", "--abcdefghij-Z--", "\n--abcdefghij-A--\n[fake] record", "{\"json\":\"inside\"}", "tab\there", "\r\n", "back\\slash", "é€", "\x00nul"}
